@@ -28,6 +28,8 @@ type vfExpReq struct {
 	Expand   bool   `json:"expand"` // has a directive
 	HasSize  bool   `json:"hasSize"`
 	Offset   int32  `json:"offset"`
+	// Bare: the message has nothing but its padding field (no response definition): its smallest size is 0 bytes
+	Bare bool `json:"bare,omitempty"`
 }
 
 type vfC19Case struct {
@@ -50,6 +52,20 @@ func vfBuildReq(r vfExpReq) proto.Message {
 	streamDef := &conformancev1.StreamResponseDefinition{ResponseHeaders: hdrs}
 	if len(r.RespData) > 0 {
 		streamDef.ResponseData = [][]byte{r.RespData}
+	}
+	if r.Bare {
+		switch r.Type {
+		case "unary":
+			return &conformancev1.UnaryRequest{RequestData: r.Data}
+		case "idempotent":
+			return &conformancev1.IdempotentUnaryRequest{RequestData: r.Data}
+		case "client-stream":
+			return &conformancev1.ClientStreamRequest{RequestData: r.Data}
+		case "server-stream":
+			return &conformancev1.ServerStreamRequest{RequestData: r.Data}
+		case "bidi":
+			return &conformancev1.BidiStreamRequest{RequestData: r.Data}
+		}
 	}
 	switch r.Type {
 	case "unimplemented":
@@ -227,6 +243,7 @@ func vfGenExpReq(t *rapid.T) vfExpReq {
 	r.RespData = rapid.SliceOfN(rapid.Byte(), 0, 40).Draw(t, "respData")
 	r.Expand = rapid.IntRange(0, 4).Draw(t, "expand") != 0
 	r.HasSize = rapid.IntRange(0, 5).Draw(t, "hasSize") != 0
+	r.Bare = rapid.IntRange(0, 4).Draw(t, "bare") == 0
 	m := vfBuildReq(r)
 	vfSetData(m, nil)
 	base := proto.Size(m)
@@ -290,6 +307,9 @@ func TestVerifC19Expand(t *testing.T) {
 				if target < base {
 					cl = append(cl, "below-minimum")
 					nt = true
+				}
+				if target == 0 {
+					cl = append(cl, "target-zero")
 				}
 			}
 			return cl, nt
